@@ -27,7 +27,7 @@ EXPLANATION = (
 )
 
 MANIFEST = {
-    "technique": "static analysis: Cython-subset front-end + structural isomorphism of two recursive subdivisions on canonical terms (helpers inlined, table loops unrolled); call-contract comparison (corners identity); memo-key dependence analysis; package-wide coordinate-system forwarding by parameter binding",
+    "technique": "static analysis: Cython-subset front-end + structural isomorphism of two recursive subdivisions on canonical terms (helpers inlined, table loops unrolled); call-contract comparison (corners identity); memo-key dependence analysis; package-wide coordinate-system forwarding by parameter binding; a coordinate system counts as in hand through an unused parameter or a field of the class",
     "text": "Decides that the compiled 256x256 grid recursion and the Python tile subdivision are the same recursion (quadrant for quadrant, both diagonal orientations) and that the public entry point feeds it the tile's own corners; geometry (pixel inside tile) is not decided.",
     "note": "Trusted: the prebuilt extension was compiled from _libtoasty.pyx (cannot be rebuilt offline); C arithmetic of the midpoint. Not decided: every pixel centre lies inside its tile.",
 }
